@@ -27,7 +27,15 @@ int main(int argc, char ** argv)
   bool mdl = atoi(argv[11]) != 0;
   try {
     std::default_random_engine generator(seed);
-    bxdecay0::std_random prng(generator);
+    // the oracle's own deviate source over the SAME engine object (the decay times are drawn from that engine too): what the documented
+    // wrapper is specified to be, not the wrapper itself - a wrapper that worked on a copy of the engine would otherwise be on both sides
+    struct EngineRef : public bxdecay0::i_random
+    {
+      explicit EngineRef(std::default_random_engine & g_) : g(g_), ud(0.0, 1.0) {}
+      double operator()() override { return ud(g); }
+      std::default_random_engine & g;
+      std::uniform_real_distribution<double> ud;
+    } prng(generator);
     bxdecay0::decay0_generator g;
     if (cat == "dbd") {
       g.set_decay_category(bxdecay0::decay0_generator::DECAY_CATEGORY_DBD);
